@@ -13,6 +13,7 @@ import time
 import traceback
 from fractions import Fraction
 
+import copy
 import z3
 
 from . import terms as T
@@ -159,14 +160,26 @@ def _axis_angle(axis, ang):
 def random_rotation(rng, specials=True):
     """uniform over SO(3) plus, with probability 0.2, the special cases the properties name: half turns
     (exact and near), axis-aligned rotations, Euler angles at / near gimbal lock"""
-    if specials and rng.random() < 0.2:
-        kind = rng.randrange(4)
+    if specials and rng.random() < 0.25:
+        kind = rng.randrange(5)
+        if kind == 4:
+            # small rotations (tilts of a well aligned instrument): a tolerance-based 'is it the identity' shortcut shows here
+            return _axis_angle((rng.gauss(0, 1), rng.gauss(0, 1), rng.gauss(0, 1) + 1e-3),
+                               rng.choice([-1, 1]) * rng.choice([1e-9, 1e-7, 1e-5, 1e-4, 3e-4, 6e-4, 9e-4, 3e-3, 1e-2]))
         if kind == 0:
             ax = rng.choice([(1, 0, 0), (0, 1, 0), (0, 0, 1), (1, 1, 0), (1, 1, 1), (1, -1, 0), (1, 2, 3)])
             return _axis_angle(ax, math.pi - rng.choice([0.0, 0.0, 1e-9, 1e-7, 1e-5]))
         if kind == 1:
             ax = rng.choice([(1, 0, 0), (0, 1, 0), (0, 0, 1)])
-            return _axis_angle(ax, rng.choice([0.0, math.pi / 2, -math.pi / 2, math.pi / 3, 2 * math.pi / 3]))
+            ang = rng.choice([0.0, math.pi / 2, -math.pi / 2, math.pi, math.pi / 3, 2 * math.pi / 3])
+            M = _axis_angle(ax, ang)
+            if ang in (0.0, math.pi / 2, -math.pi / 2, math.pi):
+                M = [[float(round(x)) for x in row] for row in M]        # exactly integral: may be passed with an integer dtype
+                if rng.random() < 0.5:
+                    M2 = _axis_angle(rng.choice([(1, 0, 0), (0, 1, 0), (0, 0, 1)]), rng.choice([math.pi / 2, -math.pi / 2, math.pi]))
+                    M2 = [[float(round(x)) for x in row] for row in M2]
+                    M = [[sum(M[i][k] * M2[k][j] for k in range(3)) for j in range(3)] for i in range(3)]
+            return M
         if kind == 2:
             e = rng.choice([0.0, 1e-12, 1e-9, 3e-8, 1e-6, 5e-5, 1e-4, 1e-3])
             PHI = e if rng.random() < 0.5 else math.pi - e
@@ -301,6 +314,9 @@ class Contract:
         discharged by certifying t == q (modulo the hypotheses) and then proving the sign of q"""
         return ()
 
+    def lemmas(self, *args):
+        return ()
+
     def sqrt_hints(self, *args):
         """closed forms that square roots met during execution may resolve to (each use is certified)"""
         return ()
@@ -424,10 +440,16 @@ class Engine:
             c = Ctx(dec)
             set_ctx(c)
             try:
+                self.module_globals(k.module, fn.__globals__)
                 args = [pt.sym(nm) for nm, pt in k.signature]
                 for nm, cond in k.requires(*args):
                     c.assume(cond)
                 c.n_pre_obl = len(c.obligations)
+                # lemmas: consequences of the preconditions, each an obligation of its own (proved from the
+                # preconditions and the earlier lemmas), then available as a fact to everything that follows
+                for nm, cond in k.lemmas(*args):
+                    c.oblige('lemma.' + nm, cond)
+                    c.assume(cond, hyp=False)
                 # proof hints are evaluated speculatively: their divisions assert nothing; ghost square
                 # roots they introduce keep their obligations (they are part of this function's obligations)
                 c.speculative = True
@@ -449,7 +471,8 @@ class Engine:
                     continue
                 except OutsideSubset:
                     raise
-                except (ValueError, AssertionError, ZeroDivisionError, IndexError, KeyError, TypeError) as e:
+                except (ValueError, AssertionError, ZeroDivisionError, IndexError, KeyError, TypeError, AttributeError) as e:
+                    _model_limitation(e)
                     outcome = ('raise', e)
                 work.extend(c.pending)
                 # frame condition: array arguments are not modified (unless the contract lists them in `modifies`)
@@ -504,6 +527,31 @@ class Engine:
                 self.add_helpers(module, node.id, ns, transform, seen)
                 ns[node.id] = self.src.compile(module, node.id, ns, transform=transform)
                 self.inlined = getattr(self, 'inlined', set()) | {'%s.%s' % (module, node.id)}
+
+    def module_globals(self, module, ns):
+        """module-level assignments `NAME = <expression>` (constants, tables, empty caches) that the namespace lacks are
+        evaluated in the model namespace -- afresh for every path, so that module state never leaks from one symbolic
+        path into another (a call is analysed as the first call of a fresh process; what depends on the history of
+        calls is the business of the native checks)"""
+        import ast as _ast
+        made = getattr(self, '_module_globals', {}).get((module, id(ns)))
+        if made is None:
+            made = []
+            for node in self.src.module(module).body:
+                if isinstance(node, _ast.Assign) and len(node.targets) == 1 and isinstance(node.targets[0], _ast.Name):
+                    nm = node.targets[0].id
+                    if nm in ns or nm.startswith('__'):
+                        continue
+                    code = compile(_ast.fix_missing_locations(_ast.Expression(body=copy.deepcopy(node.value))), self.src.path(module), 'eval')
+                    made.append((nm, code))
+            self.__dict__.setdefault('_module_globals', {})[(module, id(ns))] = made
+        for nm, code in made:
+            try:
+                ns[nm] = eval(code, ns)
+            except OutsideSubset:
+                raise
+            except Exception:
+                ns.pop(nm, None)
 
     def compile(self, module, name, ns, transform=None):
         self.add_helpers(module, name, ns, transform)
@@ -570,6 +618,21 @@ class Engine:
         return obls, paths
 
 
+_PYVC_DIR = os.path.dirname(os.path.abspath(__file__))
+
+
+def _model_limitation(e):
+    """an exception that comes out of the model classes (an operation the symbolic values do not support) says
+    nothing about the function under analysis: it is 'outside the subset', never an outcome of the function"""
+    if isinstance(e, (TypeError, AttributeError, IndexError, KeyError)) or (isinstance(e, ValueError) and 'broadcast' in str(e)):
+        frames = traceback.extract_tb(e.__traceback__)
+        inner = frames[-1].filename if frames else ''
+        msg = str(e)
+        in_model = isinstance(e, (TypeError, AttributeError)) and os.path.abspath(inner).startswith(_PYVC_DIR)
+        if in_model or any(t in msg for t in ("'SArr'", "'R'", "'I'", "'B'", "'SImage'", "'ModVal'", "'Conj'")):
+            raise OutsideSubset('the symbolic model does not support this operation: %s: %s' % (type(e).__name__, msg))
+
+
 class _ModuleNS:
     def __init__(self, d):
         self.__dict__.update(d)
@@ -590,7 +653,8 @@ class PathResult:
 def run_paths(src, module, name, make_args, namespace, max_paths=64, transform=None):
     """enumerate the paths of one real function on arguments built by make_args() (called once per
     path inside a fresh context); returns [(ctx, args, outcome)]"""
-    Engine(src).add_helpers(module, name, namespace, transform)
+    eng = Engine(src)
+    eng.add_helpers(module, name, namespace, transform)
     fn = src.compile(module, name, namespace, transform=transform)
     work = [[]]
     out = []
@@ -599,6 +663,7 @@ def run_paths(src, module, name, make_args, namespace, max_paths=64, transform=N
         c = Ctx(dec)
         set_ctx(c)
         try:
+            eng.module_globals(module, fn.__globals__)
             args = make_args(c)
             try:
                 res = fn(*args)
@@ -606,7 +671,8 @@ def run_paths(src, module, name, make_args, namespace, max_paths=64, transform=N
             except PathEnd:
                 work.extend(c.pending)
                 continue
-            except (ValueError, AssertionError, ZeroDivisionError, IndexError, KeyError, TypeError) as e:
+            except (ValueError, AssertionError, ZeroDivisionError, IndexError, KeyError, TypeError, AttributeError) as e:
+                _model_limitation(e)
                 outcome = ('raise', e)
             work.extend(c.pending)
             out.append((c, args, outcome))
